@@ -296,11 +296,18 @@ CallExtern ==
          r == G.rules[n.ri]
          x == ExternOracle(r.fn, Rest(txt, st.p))
      IN /\ hist' = Log([ev |-> "ext", r |-> r.name, p |-> st.p])
-        /\ IF x.ok
-           THEN /\ ctl' = RetOk([st EXCEPT !.p = st.p + x.n], CallMs(n, x.v))
-                /\ att' = att
-           ELSE TermFail(st, KExtern(x.msg))
-  /\ UNCHANGED <<gi, txt, stack, cache, depth, evals>>
+        /\ IF x.panic
+           THEN \* the user's function panics: every frame is unwound (no tracer exit, no cache store) and the
+                \* caller of parse() gets the panic; nothing of this call survives it (the cache is per call)
+                /\ ctl' = [m |-> "done", ok |-> FALSE, upanic |-> TRUE, st |-> st, v |-> <<>>,
+                           err |-> [p |-> st.p, k |-> KExtern(x.msg)]]
+                /\ stack' = <<>> /\ depth' = 0 /\ att' = att
+           ELSE /\ UNCHANGED <<stack, depth>>
+                /\ IF x.ok
+                   THEN /\ ctl' = RetOk([st EXCEPT !.p = st.p + x.n], CallMs(n, x.v))
+                        /\ att' = att
+                   ELSE TermFail(st, KExtern(x.msg))
+  /\ UNCHANGED <<gi, txt, cache, evals>>
 
 ---------------------------------------------------------------------------
 \* sequences
@@ -570,6 +577,8 @@ Spec == Init /\ [][Next]_vars
 FairSpec == Spec /\ WF_vars(Next)
 
 Done == ctl.m = "done"
+\* the call ended with a panic of a user function (not a result)
+UPanic == Done /\ "upanic" \in DOMAIN ctl
 
 ---------------------------------------------------------------------------
 (* Properties                                                              *)
@@ -577,8 +586,8 @@ Done == ctl.m = "done"
 D == Denot(G, txt)
 
 \* C01: acceptance and consumed length are those of the reference semantics
-Conforms == Done => /\ ctl.ok = D.ok
-                    /\ ctl.ok => ctl.st.p = D.p
+Conforms == Done /\ ~UPanic => /\ ctl.ok = D.ok
+                               /\ (ctl.ok => ctl.st.p = D.p)
 
 \* C02 / C09: the tree, ranges included
 TreeExact == Done /\ ctl.ok /\ D.ok => ctl.v = D.v
@@ -629,7 +638,7 @@ CountSound ==
      => CountSoundAt(FT(Top.ri), ctl.ms)
 
 \* C10
-Failed == Done /\ ~ctl.ok
+Failed == Done /\ ~ctl.ok /\ ~UPanic
 AttMust == {a.p : a \in {x \in att : x.la = 0}}
 AttAll  == {a.p : a \in att}
 MaxOf(S) == CHOOSE x \in S : \A y \in S : y <= x
